@@ -26,6 +26,17 @@ func Send[T any](pos string, c chan<- T, v T) {
 	e.done(g, o, 0)
 }
 
+// SendTo is Send with the element type inferred from the channel alone (the value is
+// then assigned to it under the ordinary assignability rules, as in `c <- v`).
+func SendTo[T any](pos string, c chan<- T) func(T) {
+	return func(v T) { Send(pos, c, v) }
+}
+
+// SelSendTo is SelSendCase with the element type inferred from the channel alone.
+func SelSendTo[T any](s *Sel, c chan<- T) func(T) {
+	return func(v T) { SelSendCase(s, c, v) }
+}
+
 // Recv performs <-c.
 func Recv[T any](pos string, c <-chan T) T {
 	v, _ := Recv2(pos, c)
